@@ -153,6 +153,9 @@ func TestC01(t *testing.T) {
 		})
 	}
 
+	// ---------- (a') extension declarations (rules anchored in R3) ----------
+	c01ExtensionDeclarations(r)
+
 	// ---------- (b) generated models, (c) mutants ----------
 	nModels := r.N(300, 5000)
 	R := r.N(3, 6)
